@@ -637,12 +637,156 @@ def run(chk: Check) -> None:
     d10_twin_arms(chk)
     d12_integers_are_exact(chk)
     d13_callers_choices_unaltered(chk)
+    d14_anchor_is_written(chk)
+    d15_options_survive_recursion(chk)
+    d16_no_equality_shortcut(chk)
     from rules.shared import shared_state_rule
     shared_state_rule(chk, "C03-D11", ("yamlpath/processor.py",
                                    "yamlpath/common/nodes.py"), 45)
     from rules.c10 import d5_no_live_mutation
     d5_no_live_mutation(chk, "C03-D6", ("yamlpath/processor.py",
                                          "yamlpath/common/nodes.py"))
+
+
+def d15_options_survive_recursion(chk: Check) -> None:
+    """An option taken out of `kwargs` with `.pop()` is gone from the
+    dictionary; a function that afterwards calls itself with `**kwargs`
+    (to apply the same change to every result of a Collector, say) must
+    hand the option on by name, or the inner call works with the default:
+    `set_value("(a)+(b)", "5", value_format=DQUOTE)` stores the integer 5."""
+    prog = chk.prog
+    chk.rule("C03-D15", "a self-recursive call with **kwargs names every "
+             "option its function has already popped from kwargs", floor=2)
+    n = 0
+    for rel in ("yamlpath/processor.py", "yamlpath/common/nodes.py"):
+        for fi in prog.funcs_in(rel):
+            pops = [(c.args[0].value, c.lineno) for c in walk_local(fi.node)
+                    if isinstance(c, ast.Call) and
+                    isinstance(c.func, ast.Attribute) and
+                    c.func.attr == "pop" and
+                    src(c.func.value) == "kwargs" and c.args and
+                    isinstance(c.args[0], ast.Constant)]
+            if not pops:
+                continue
+            for c in walk_local(fi.node):
+                if not (isinstance(c, ast.Call) and
+                        src(c.func).split(".")[-1] == fi.node.name and
+                        any(k.arg is None and src(k.value) == "kwargs"
+                            for k in c.keywords)):
+                    continue
+                kws = {k.arg for k in c.keywords if k.arg}
+                gone = [name for name, ln in pops if ln < c.lineno]
+                n += 1
+                text = "{}: recursion at `{}`".format(fi.short, src(c)[:50])
+                lost = [g for g in gone if g not in kws]
+                if lost:
+                    chk.fail("C03-D15", fi, c, text,
+                             "option(s) {} were popped from kwargs before "
+                             "this call and are not passed on: the nodes "
+                             "reached through the recursion (Collector "
+                             "results) are written with the default format "
+                             "/ without the tag".format(lost))
+                else:
+                    chk.ok("C03-D15", fi, c, text,
+                           "passes on {}".format(gone or "nothing popped "
+                                                 "yet"))
+    if n < 2:
+        raise AnalysisError("self-recursive **kwargs calls found: {}".format(n))
+
+
+def d16_no_equality_shortcut(chk: Check) -> None:
+    """Whether a node "already holds" the new value cannot be decided with
+    `==`: 1 == True == 1.0, "5" and 5 are told apart only by the format the
+    caller asked for, and a tag or quoting style may be all that changes.
+    The change routines therefore never compare the new value with what is
+    in the document (the only tests on it are key-membership for a rename
+    and null / sign tests on the value alone)."""
+    prog = chk.prog
+    chk.rule("C03-D16", "on the set path, the new value is not compared for "
+             "equality with a node of the document (no skip-when-equal "
+             "shortcut)", floor=4)
+    n = 0
+    for fi in closure(prog, [prog.func("Processor.set_value")]):
+        if not fi.module.relpath.endswith(("processor.py", "nodes.py")):
+            continue
+        ps = [p_ for p_ in fi.params() if p_ in ("value", "new_value")]
+        if not ps:
+            continue
+        n += 1
+        bad = None
+        for c in walk_local(fi.node):
+            if not (isinstance(c, ast.Compare) and len(c.ops) == 1 and
+                    isinstance(c.ops[0], (ast.Eq, ast.NotEq))):
+                continue
+            sides = [c.left, c.comparators[0]]
+            mine = [x for x in sides if src(x) in ps]
+            other = [x for x in sides if src(x) not in ps]
+            if mine and other and not isinstance(other[0], ast.Constant):
+                bad = c
+                break
+        text = "{}: comparisons of `{}`".format(fi.short, ps[0])
+        if bad is None:
+            chk.ok("C03-D16", fi, fi.node, text, "none with a document "
+                   "node")
+        else:
+            chk.fail("C03-D16", fi, bad, text,
+                     "`{}` decides by equality whether the change is "
+                     "needed: 1 == True == 1.0 and a format or tag request "
+                     "does not show in `==`, so `set_value(p, True)` on a "
+                     "node holding 1 (or a DQUOTE request on equal text) "
+                     "leaves the document as it was".format(src(bad)))
+    if n < 4:
+        raise AnalysisError("functions taking the new value on the set "
+                            "path: {}".format(n))
+
+
+def d14_anchor_is_written(chk: Check) -> None:
+    """A replacement node carries the old node's anchor *and writes it*.
+    ruamel.yaml emits an anchor only when an alias refers to the node or
+    the anchor was set with always_dump; the constructors (`anchor=`) set
+    it, `yaml_set_anchor(name)` by default does not.  A replacement whose
+    anchor is attached that way loses `&name` in the dumped document as
+    soon as no alias uses it -- in memory nothing looks wrong."""
+    prog = chk.prog
+    chk.rule("C03-D14", "in the routines that build replacement nodes, an "
+             "anchor is attached through a constructor (`anchor=`) or by "
+             "yaml_set_anchor(..., always_dump=True)", floor=6)
+    roots = [prog.func("Nodes.make_new_node"),
+             prog.func("Nodes.apply_yaml_tag"),
+             prog.func("Nodes.clone_node")]
+    n = 0
+    for fi in closure(prog, roots):
+        if not fi.module.relpath.endswith("common/nodes.py"):
+            continue
+        for c in walk_local(fi.node):
+            if not isinstance(c, ast.Call):
+                continue
+            kw = {k.arg: k.value for k in c.keywords}
+            if isinstance(c.func, ast.Attribute) and \
+                    c.func.attr == "yaml_set_anchor":
+                n += 1
+                text = "{}: {}".format(fi.short, src(c)[:60])
+                v = kw.get("always_dump")
+                if v is None and len(c.args) >= 2:
+                    v = c.args[1]
+                if isinstance(v, ast.Constant) and v.value is True:
+                    chk.ok("C03-D14", fi, c, text, "always_dump=True")
+                else:
+                    chk.fail("C03-D14", fi, c, text,
+                             "yaml_set_anchor defaults to always_dump="
+                             "False: the anchor of a node no alias refers "
+                             "to is dropped when the document is written, "
+                             "so an edit of `a: &x 0.5` writes `a: 0.75`")
+            elif "anchor" in kw and not (
+                    isinstance(c.func, ast.Attribute) and
+                    c.func.attr.startswith("make_")):
+                n += 1
+                chk.ok("C03-D14", fi, c, "{}: {}".format(
+                    fi.short, src(c)[:60]), "anchor given to the "
+                    "constructor (which sets always_dump)")
+    if n < 6:
+        raise AnalysisError("anchor attachments in the replacement "
+                            "builders: {}".format(n))
 
 
 def d1m_own_entries(chk: Check) -> None:
